@@ -71,6 +71,10 @@ Definition cmul (N c1 c2 : Z) : Z := (c1 * c2) mod (N * N).
 (* gift.Encrypt: CiphertextOp(Representative(m), IdentityNoise(r)) *)
 Definition enc (N m r : Z) : Z := cmul N (representative N m) (noise N r).
 
+(* the textbook formula c = (1+N)^m r^N mod N^2, evaluated literally *)
+Definition textbook (N m r : Z) : Z :=
+  (modexp (1 + N) m (N * N) * modexp r N (N * N)) mod (N * N).
+
 (* CiphertextOpInv *)
 Definition cinv (N c : Z) : option Z := modinv c (N * N).
 
@@ -156,7 +160,7 @@ Definition decrypt (k : skey) (c : Z) : Z :=
   recombine_N k mp mq.
 
 (* SecretKey.Open: (m, r) ; None when the recovered value is not a nonce *)
-Definition open (k : skey) (c : Z) : option (Z * Z) :=
+Definition open_ct (k : skey) (c : Z) : option (Z * Z) :=
   let p := sk_p k in let q := sk_q k in let N := sk_N k in
   let m := decrypt k c in
   let gminv := (1 - (m * N) mod (N * N)) mod (N * N) in
